@@ -411,7 +411,11 @@ Definition may_accept (v : ty) (j : json) : bool :=
   match v with
   | TNone => false
   | TAny | TStr | TBool => true
-  | TInt => match j with JInt _ | JBool _ | JStr _ => true | _ => false end
+  | TInt => match j with
+            | JInt _ | JBool _ => true
+            | JStr s => match parse_int s with Some _ => true | None => false end    (* exact: int(s) *)
+            | _ => false
+            end
   | TList _ => match j with JArr _ | JStr _ | JObj _ => true | _ => false end
   | TMap _ => match j with JObj _ => true | _ => false end
   | TObj _ fs => match j with
